@@ -12,6 +12,7 @@ import H4.Driver.Vs
 import H4.Driver.GR
 import H4.Driver.Attr
 import H4.Driver.MCache
+import H4.Driver.Fmt
 import H4.Driver.Xapi
 import H4.Driver.Limits
 import H4.Driver.Bits
@@ -96,6 +97,7 @@ def main (args : List String) : IO UInt32 := do
     let a ← loop (← IO.getStdin) {}
     IO.println s!"SUMMARY ok={a.ok} diff={a.diff}"
     return (if a.diff == 0 then 0 else 1)
+  | ["read", path] => readCmd path
   | _ =>
-    IO.eprintln "usage: h4model check < trace"
+    IO.eprintln "usage: h4model check < trace | h4model read <file.hdf>"
     return 2
